@@ -132,6 +132,61 @@ def r10a(ctx):
                 ctx.violation("R10a", f.file, f.short, i, "mapping selection", f"{f.short}: " + "; ".join(why))
     ctx.floor("R10a-lists", n_list, 3, "document list constructions in builders")
     ctx.floor("R10a-maps", n_map, 3, "mapping selections in builders")
+    # whole-program census: every list node built on a loading path (any function reachable from a file type's
+    # build_tree) carries the options, whatever builder it sits in - pickle input goes through the Python-AST builder
+    from ..callgraph import CallGraph
+    cg = CallGraph(m)
+    ents = [m.method(q, "build_tree") for q in m.filetypes() if m.method(q, "build_tree") is not None]
+    reach, _ = cg.reachable(ents, set(m.filetypes()))
+    n_census = 0
+    done = {bq for bq in BUILDERS}
+    for fq in sorted(reach):
+        f = m.functions.get(fq)
+        if f is None or fq in done or f.module in ("graphtage.formatter", "graphtage.printer"):
+            continue
+        if f.cls and m.is_subclass(f.cls, "graphtage.formatter.Formatter"):
+            continue
+        params = func_params(f.node)
+        for c in walk_no_nested(f.node):
+            if not isinstance(c, ast.Call):
+                continue
+            r = m.resolve_expr(f.module, c.func)
+            cq = r[0][1] if r and r[0] and r[0][0] == "class" else None
+            if not (cq and cq in m.classes and m.is_subclass(cq, LIST)):
+                continue
+            n_census += 1
+            short = cq.rsplit(".", 1)[-1]
+            missing = []
+            for i, opt in enumerate(LIST_OPTS):
+                v = kwarg(c, opt, i + 1)
+                if v is None:
+                    missing.append(f"{opt} not passed")
+                elif not (opts_expr(v, opt) or (isinstance(v, ast.Name) and v.id == opt and opt in params)
+                          or self_attr(v) == opt):
+                    missing.append(f"{opt}={norm(v, 40)} is not the option of that name")
+            if missing:
+                ctx.violation("R10a", f.file, f.short, c, f"{short}(...) list options",
+                              f"{short}(...) built in {f.short} (reachable from a file type's build_tree) ignores the list "
+                              f"options ({'; '.join(missing)}): with -l / -ll these lists are still diffed with insertions "
+                              f"and removals instead of strictly by position")
+            else:
+                ctx.proved("R10a", f.file, f.short, c, f"{short}(...) list options", "both list options are taken from the options object")
+    ctx.floor("R10a-census", n_census, 4, "list constructions on loading paths outside the anchor builders")
+    # copies keep the options
+    lq = m.need_class("ListNode")
+    cf = m.method(lq, "copy_from")
+    calls = [c for c in walk_no_nested(cf.node) if isinstance(c, ast.Call) and dotted(c.func) in ("self.__class__", "type(self)", "ListNode")] if cf else []
+    if cf is None or not calls:
+        ctx.inconclusive("R10a", "graphtage/graphtage.py", "ListNode.copy_from", cf.node if cf else None, "copy keeps list options",
+                         "ListNode.copy_from does not rebuild through self.__class__(...)")
+    for c in calls:
+        missing = [opt for i, opt in enumerate(LIST_OPTS) if self_attr(kwarg(c, opt, i + 1)) != opt]
+        if missing:
+            ctx.violation("R10a", cf.file, "ListNode.copy_from", c, "copy keeps list options",
+                          f"`{norm(c, 60)}` rebuilds the list without {missing}: a copy of a tree built with list edits "
+                          f"disabled is diffed with insertions and removals again")
+        else:
+            ctx.proved("R10a", cf.file, "ListNode.copy_from", c, "copy keeps list options", "copy_from forwards both list options")
     recursive_options(ctx, "R10a")
     # mapping classes set allow_key_edits on their pairs
     for cq, want in (("DictNode", True), ("FixedKeyDictNode", False)):
@@ -288,4 +343,8 @@ def run(ctx):
     c01.r01d(ctx)     # `none`: partner looked up by the same key
     c01.r01c(ctx)     # `auto`: key pre-match pairs equal keys and skips no candidate
     r10d(ctx)
+    from . import c02
+    c02.r02g(ctx)     # 'keys differ' is decided by leaf equality: a boolean key is not a numeric key
+    ctx.assume("NaN keys: NaN is not equal to itself, so a NaN key is by definition not 'present in both mappings'; the auto "
+               "strategy leaves it to the matcher (judged outside the property, see DESIGN 10.9)")
     ctx.assume("which pairs the assignment picks among the allowed ones is not decided")
